@@ -258,6 +258,72 @@ Definition viter_from (v : vec) (idx : nat) : option (list A) :=
        | None => None
        end.
 
+(* ---- mutable iteration ([IterMut], [iter_mut_starting_at], [Slice::iter_mut]).  The consumer
+   replaces every element it is handed by [f] of it; [budget] is the number of elements it still
+   takes ([take(len)] in [Slice::iter_mut]); elements are visited in order. *)
+Fixpoint map_take_list (step : node -> nat -> option (node * nat)) (l : list node) (budget : nat)
+  : option (list node * nat) :=
+  match l with
+  | [] => Some ([], budget)
+  | c :: t =>
+      match step c budget with
+      | Some (c', b1) =>
+          match map_take_list step t b1 with
+          | Some (t', b2) => Some (c' :: t', b2)
+          | None => None
+          end
+      | None => None
+      end
+  end.
+
+(* a whole subtree, as [IterMut::next] walks it after the first leaf *)
+Fixpoint node_map_take (h : nat) (n : node) (f : A -> A) (budget : nat) : option (node * nat) :=
+  match h, n with
+  | 0, Leaf data => Some (Leaf (map f (firstn budget data) ++ skipn budget data), budget - length data)
+  | S h', Interior ch =>
+      match map_take_list (fun c b => node_map_take h' c f b) ch budget with
+      | Some (ch', b') => Some (Interior ch', b')
+      | None => None
+      end
+  | _, _ => None
+  end.
+
+(* the descent of [iter_mut_starting_at] along [idx], then the right siblings *)
+Fixpoint node_map_from (h : nat) (n : node) (idx : nat) (f : A -> A) (budget : nat) : option (node * nat) :=
+  match h, n with
+  | 0, Leaf data =>
+      let i := idx mod B in
+      let tl := skipn i data in
+      Some (Leaf (firstn i data ++ map f (firstn budget tl) ++ skipn budget tl), budget - length tl)
+  | S h', Interior ch =>
+      let b := extract_index idx h in
+      match skipn b ch with
+      | c :: rest =>
+          match node_map_from h' c idx f budget with
+          | Some (c', b1) =>
+              match map_take_list (fun c0 b0 => node_map_take h' c0 f b0) rest b1 with
+              | Some (rest', b2) => Some (Interior (firstn b ch ++ c' :: rest'), b2)
+              | None => None
+              end
+          | None => None
+          end
+      | [] => None                               (* .expect("empty interior node") *)
+      end
+  | _, _ => None
+  end.
+
+Definition vmap_from (v : vec) (idx : nat) (f : A -> A) (budget : nat) : option vec :=
+  if idx =? vlen v then Some v
+  else if vlen v <? idx then None                (* panic!("out of bounds") *)
+  else match root v with
+       | Some r =>
+           match node_map_from (height v) r idx f budget with
+           | Some (r', _) => Some (mkVec (Some r') (vlen v) (height v))
+           | None => None
+           end
+       | None => None
+       end.
+
 (* ---- Extend.  The iterator is a list; [take k] consumes a prefix ([firstn]/[skipn]).
 
    Both [while !node.is_full() && iter.peek().is_some() { node.push_back(<new child>) }] loops of
@@ -450,6 +516,12 @@ Definition sextend (s : slice) (it : list A) : option slice :=
 Definition siter (s : slice) : option (list A) :=
   match viter_from (svec s) (sstart s) with
   | Some l => Some (firstn (slen s) l)
+  | None => None
+  end.
+(* [Slice::iter_mut]: [self.vec.iter_mut_starting_at(self.start).take(len)] *)
+Definition smap (s : slice) (f : A -> A) : option slice :=
+  match vmap_from (svec s) (sstart s) f (slen s) with
+  | Some v => Some (mkSlice v (sstart s) (send s))
   | None => None
   end.
 Definition sfrom_list (l : list A) : option slice :=
